@@ -89,6 +89,7 @@ type CallSpec struct {
 	Timeout time.Duration       `json:"timeout,omitempty"`
 	AliasMD bool                `json:"alias_md,omitempty"` // the handler reuses one metadata object for all its SetHeader (and one for all its SetTrailer) calls, refilling it in between
 	BothWays bool               `json:"both_ways,omitempty"` // C11: abandoned with traffic pending in both directions
+	BadReply int                `json:"bad_reply,omitempty"` // unary: 1 the handler returns a message the codec refuses (invalid UTF-8 in a string field), 2 a nil reply with a nil error
 	PreDone int                 `json:"predone,omitempty"` // the caller's context is already finished when the call starts: 1 cancelled, 2 deadline passed
 	Req     []byte              `json:"-"`
 	Resp    []byte              `json:"-"`
@@ -321,7 +322,7 @@ func (s *Sim) unaryHandler(srv any, ctx context.Context, dec func(any) error, ic
 	return ic(ctx, in, &grpc.UnaryServerInfo{Server: srv, FullMethod: methodNames[KUnary]}, h)
 }
 
-func (s *Sim) unary(ctx context.Context, in *wrapperspb.BytesValue) (*wrapperspb.BytesValue, error) {
+func (s *Sim) unary(ctx context.Context, in *wrapperspb.BytesValue) (any, error) {
 	e := s.E
 	id, ok := callIDFromCtx(ctx)
 	if !ok {
@@ -372,6 +373,12 @@ func (s *Sim) unary(ctx context.Context, in *wrapperspb.BytesValue) (*wrapperspb
 	r.HReturnEv = e.Log("h.ret", "", id, "")
 	if err != nil {
 		return nil, err
+	}
+	switch spec.BadReply {
+	case 1:
+		return wrapperspb.String("not utf-8: \xff\xfe"), nil
+	case 2:
+		return nil, nil
 	}
 	return wrapperspb.Bytes(spec.Resp), nil
 }
